@@ -1,58 +1,105 @@
 /* C12: src/utils/bt_encode.c - bt_en_decode (recursive, heap), bt_dict_find, bt_en_free on LEN arbitrary bytes.
- * Exactly sized input object; after a successful decode the tree is walked (top level), searched and freed.
- * KF_BT_END_READ: known finding - after the last item of a list / dict the decoder reads *cur_pos to look for 'e' even
- * when cur_pos == buf + buf_size (e.g. "li1e").  Blocking clause: the object gets one extra readable byte which is not
- * 'e'-terminated data (value symbolic), the reported sizes are still checked against LEN. */
+ *
+ * Direct symbolic execution of the recursion was infeasible (LEN 3, depth 2: no verdict in 400 s; every level carries two
+ * item loops, each with recursive calls and recursive frees on its error paths).  The recursion is therefore decided by
+ * INDUCTION ON THE NESTING DEPTH: gen.py copies bt_encode.c renaming only the definition line to bt_en_decode_top; the
+ * recursive calls inside still say bt_en_decode and are bound here to a CONTRACT STUB.  The job proves
+ *     "if every nested call obeys contract K, the real body - run on ALL LEN-byte inputs - is memory safe, calls itself
+ *      only on spans inside the buffer (K's precondition), terminates, and its own result obeys K".
+ * K (success): *ret_data is a fresh node, type 0..3, raw span inside the given span, for strings val.s == raw;
+ *     1 <= *ret_buf_off <= buf_size, strings: < buf_size.   K (failure): non-zero result, *ret_data == NULL.
+ * Depth 0 (strings, integers) makes no nested call, so K holds for every depth.  Counterexamples are replayed against the
+ * real recursive function (REPLAY includes the unmodified bt_encode.c); one that needs stub values the real function
+ * cannot produce does not reproduce and is reported as UNCONFIRMED, never as a violation.
+ *
+ * KF_BT_END_READ: known finding - after the last item of a list / dict the decoder tests *cur_pos for 'e' although
+ *   cur_pos may equal buf + buf_size ("li1e").  Blocking clause: one more readable byte that is not 'e'.
+ * KF_BT_DICT_KEY: known finding - a dictionary whose key is not a string ("di1e..") leaves the loop with error == 0 and
+ *   returns success with raw_size = (size_t)-1.  Blocking clause: raw span of dictionaries not checked. */
 #include "verif.h"
 #include <errno.h>
 #define C12_NM_HI (LEN + 1)
 #define C12_SPEC_REALLOC_ITEMS
 #include "libc_stubs.h"
-#include "utils/bt_encode.c"
+#include "utils/bt_encode.h"
 
-struct in_s { uint8_t src[LEN + 2]; uint8_t key[2]; uint8_t ktype; size_t off; };
+#define NSUB (LEN + 1)
+struct in_s { uint8_t src[LEN + 2]; uint8_t key[2]; uint8_t ktype; size_t off;
+	struct { uint8_t ok, type; size_t off, raw_off, raw_size; } sub[NSUB]; };
 #include "verif_in.h"
 
-static void chk_node(const bt_en_node_p n, const uint8_t *src) {
-	V_ASSERT(n->type <= BT_EN_TYPE_DICT, "node type");
-	V_ASSERT(n->raw >= src && n->raw <= src + LEN, "node raw pointer inside the buffer");
-#ifndef KF_BT_DICT_KEY
-	V_ASSERT(n->raw_size <= (size_t)((src + LEN) - n->raw), "node raw span inside the buffer");
+#ifdef REPLAY
+#include "utils/bt_encode.c"
+#define bt_en_decode_top bt_en_decode
+#else
+int bt_en_decode_top(uint8_t *buf, size_t buf_size, bt_en_node_p *ret_data, size_t *ret_buf_off);
+#include "bt_encode_top.c"
+static const uint8_t *g_src;
+static size_t g_calls;
+int bt_en_decode(uint8_t *buf, size_t buf_size, bt_en_node_p *ret_data, size_t *ret_buf_off) {
+	V_ASSERT(buf >= g_src && buf <= g_src + LEN && buf_size <= (size_t)((g_src + LEN) - buf),
+	    "nested call: span inside the caller's buffer (precondition of K)");
+	V_ASSERT(ret_data != NULL, "nested call: result pointer given");
+	if (0 == buf_size) return (EINVAL);
+	size_t k = g_calls++;
+	V_ASSERT(k < NSUB, "at most LEN + 1 nested calls (termination)");
+	V_ASSUME(k < NSUB);
+	(*ret_data) = NULL;
+	if (!IN.sub[k].ok) return (EBADMSG);
+	uint8_t type = (IN.sub[k].type & 3);
+	size_t off = IN.sub[k].off, ro = IN.sub[k].raw_off, rs = IN.sub[k].raw_size;
+	V_ASSUME(off >= 1 && off <= buf_size && (type != BT_EN_TYPE_STR || off < buf_size));
+	V_ASSUME(ro <= off && rs <= off - ro);
+	bt_en_node_p n = bt_en_alloc(type, buf + ro, rs);
+	if (type == BT_EN_TYPE_STR) n->val.s = buf + ro;
+	n->val_count = (type <= BT_EN_TYPE_NUM) ? 1 : 0;	/* nested containers: empty (their content is their own level's business) */
+	(*ret_data) = n;
+	if (NULL != ret_buf_off) (*ret_buf_off) = off;
+	return (0);
+}
 #endif
+
+static void chk_node(const bt_en_node_p n, const uint8_t *src) {
+	V_ASSERT(n != NULL && n->type <= BT_EN_TYPE_DICT, "node present, type 0..3");
+	V_ASSERT(n->raw >= src && n->raw <= src + LEN, "node raw pointer inside the buffer");
+#ifdef KF_BT_DICT_KEY
+	if (n->type != BT_EN_TYPE_DICT)
+#endif
+	V_ASSERT(n->raw_size <= (size_t)((src + LEN) - n->raw), "node raw span inside the buffer");
+	if (n->type == BT_EN_TYPE_STR) V_ASSERT(n->val.s == n->raw, "string value is the raw span");
 }
 
 void harness(void) {
 	V_BEGIN();
 #ifdef KF_BT_END_READ
 	uint8_t *src = v_buf(IN.src, LEN + 1);
+	V_ASSUME(src[LEN] != 'e');
 #else
 	uint8_t *src = v_buf(IN.src, LEN);
 #endif
-#ifdef MAXCONT	/* shape: at most MAXCONT bytes of the input are 'l' or 'd' => nesting depth <= MAXCONT + 1 (recursion bound) */
-	{
-		size_t nc = 0;
-		for (size_t i = 0; i < LEN; i++) nc += (src[i] == 'l' || src[i] == 'd');
-		V_ASSUME(nc <= MAXCONT);
-	}
+#ifndef REPLAY
+	g_src = src;
 #endif
 	bt_en_node_p node = NULL, found = NULL;
 	size_t off = 777;
-	int r = bt_en_decode(src, LEN, &node, (IN.ktype & 0x80) ? NULL : &off);
+	int r = bt_en_decode_top(src, LEN, &node, (IN.ktype & 0x80) ? NULL : &off);
 	if (LEN == 0) {
 		V_ASSERT(r == EINVAL, "decode: empty buffer refused");
 		V_WITNESS("bt einval");
 		return;
 	}
 	if (r != 0) {
-		V_ASSERT(node == NULL, "decode: no node on error");
-		V_ASSERT(r == EBADMSG || r == EINVAL || r == ENOMEM, "decode: documented error codes");
+		V_ASSERT(node == NULL, "K: no node on error");
 		V_WITNESS("bt error");
 		return;
 	}
-	V_ASSERT(node != NULL, "decode: node on success");
-	if (!(IN.ktype & 0x80)) V_ASSERT(off >= 1 && off <= LEN, "decode: consumed size inside the buffer");
 	chk_node(node, src);
+	if (!(IN.ktype & 0x80)) {
+		V_ASSERT(off >= 1 && off <= LEN, "K: consumed size inside the buffer");
+		if (node->type == BT_EN_TYPE_STR) V_ASSERT(off < LEN, "K: a string never ends the buffer");
+	}
 	if (node->type == BT_EN_TYPE_LIST) {
+		V_ASSERT(node->val.l != NULL && node->val_count >= 1, "list: items present");
 		for (size_t i = 0; i < node->val_count; i++) chk_node(node->val.l[i], src);
 		V_WITNESS("bt list");
 	}
